@@ -106,6 +106,8 @@ fn conf(g: &mut Gen) {
     g.cfg.weights.invite += 2;
     g.cfg.weights.remove += 1;
     g.reprocess_welcomes = true;
+    // in half of the runs recipients take their time: several invitations pending at once
+    g.slow_accept = g.cfg.seed % 2 == 0;
 }
 
 pub fn spec() -> CheckSpec {
